@@ -78,6 +78,10 @@ CLAIMS["C09"] = ("other", "typestate of the ready-group protocol over the CFG of
   "Decides the protocol the gate drives on its ready group: set-up order with nobody pre-readied, rejection of unknown participants before any signal, a single completion function reachable only as the ready group's completion callback, the timeout wiring of both constructors and the sibling wiring of the rebuilt gate. Exactly-once delivery and supersession under schedules live inside syncsaga and are not decided.",
   "DESIGN.md §4 C09", TRUST)
 
+CLAIMS["C11"] = ("other", "role classification of the hand's event handlers and check of the dispatch table; ready-group typestate per request handler; completion↔group-step pairing and who-may-call; guard analysis of the asked sets; dominance checks of auto-next and close-once; timeout wiring",
+  "Decides the wiring that makes the hand wait for exactly the players it asked and move on by itself: dispatch table, waiting protocol with nobody pre-readied, completion pairing, asked sets (everyone for ready/ante, matching blind positions for blinds), signal routing, auto-next, close-once and the response timeout. Termination of every hand and order-independence of responses are not decided.",
+  "DESIGN.md §4 C11", TRUST)
+
 REASONS = {}
 
 checks = []
